@@ -44,7 +44,30 @@
 (* Second spec-level negative control: ShallowCopy = TRUE (dict.copy():    *)
 (* the sets are shared) makes TLC report SourceInverse violated            *)
 (* (MC_Debtags_shallow.cfg: Copy, then Insert under an existing tag).      *)
-(* Sources of derivations documented as "sharing" are out of the domain.   *)
+(* Sources of SHARING derivations (hardening after seed C20-H):             *)
+(*  - reverse() is a VIEW: it hands out the two DICTIONARY objects of the   *)
+(*    original crosswise (view.db IS orig.rdb, view.rdb IS orig.db).  The   *)
+(*    original is retained as a source of kind "share" with link = "rev"    *)
+(*    (a reverse() of the view gives link "same"); whatever is done through *)
+(*    one of the two objects (only insert mutates in place) is done to the  *)
+(*    other: the source stays the reverse (the same) collection, so it      *)
+(*    stays mutually inverse, whatever the sizes of the two indexes are --  *)
+(*    in particular when one index is EMPTY (packages without tags).        *)
+(*    Switch continues the history on the retained object and observes the  *)
+(*    former current one (mutate the original, inspect the view).           *)
+(*    Negative control ViewReplacesEmptyIndex (the view is built through a  *)
+(*    constructor idiom `self.db = db or {}`: an EMPTY dictionary handed in *)
+(*    is replaced by a fresh private one): MC_Debtags_view.cfg -> TLC       *)
+(*    reports SourceInverse violated (Read untagged packages, Reverse,      *)
+(*    Insert through the view).                                             *)
+(*  - choose_packages / filter_packages / filter_packages_tags / filter_tags *)
+(*    share SET objects with the collection they were taken from (new       *)
+(*    dictionaries): the source is retained with kind "share", link "none"  *)
+(*    and must stay what it was as long as no in-place mutation reaches a   *)
+(*    shared set (`al` tells); when one does (insert under an existing tag  *)
+(*    of a filter_tags result, or through reverse() of a choose/filter      *)
+(*    result) the documented sharing makes the source lose the inverse      *)
+(*    today: that outcome is UNSPECIFIED, the source is released.           *)
 (*                                                                         *)
 (* Failing reads: a read() whose input iterator or tag_filter raises, or a  *)
 (* qread() of a truncated pickle, is part of a history too: the exception  *)
@@ -82,7 +105,10 @@
 (* MC_Debtags_lts.cfg (same + EDGE/STATE emission), _lts_small (2 packages *)
 (* x 3 tags, the LTS replayed by the quick tier), _big (4 packages),       *)
 (* _src (2 packages x 3 tags with the retained source, SrcSteps = 2),      *)
-(* _dev, _shallow, _nonatomic, _qread, _rview, _alias (negative controls).  *)
+(* _dev, _shallow, _nonatomic, _qread, _rview, _alias, _view (negative      *)
+(* controls).  WatchParts = TRUE (MC_Debtags_src.cfg, thorough tier) also   *)
+(* retains the sources of the set-sharing restrictions; the quick            *)
+(* configuration retains copies and the originals of views (27 592 states). *)
 (*                                                                         *)
 (* Domain (DESIGN D3 / section 5 C20): inserts use fresh package names;    *)
 (* read() gets each package on one line only; facet_collection is applied  *)
@@ -108,13 +134,17 @@ CONSTANTS PK,          \* package names offered by the model configuration
           ReverseViewCached,       \* negative control: reverse() returns a remembered view that read() does not drop
           AliasBoundToFirstObject, \* negative control: a deprecated alias stays bound to the first object that used it
           ShallowCopy, \* negative control: copy()/reverse_copy() share the set objects with the source
+          ViewReplacesEmptyIndex,  \* negative control: reverse() replaces an EMPTY dictionary of the original by a private one
+          WatchParts,  \* TRUE: the source of a set-sharing restriction (choose_* / filter_*) is retained as well
           SrcSteps,    \* the source of a copy stays observed for this many further calls (0: never)
           Emit         \* TRUE: print EDGE / STATE lines (the complete LTS of the reference)
 
 VARIABLES P, T, R,     \* reference relation
           db, rdb,     \* implementation: the two dictionaries
           sabs,        \* reference relation of the retained source of the last copy
-          src,         \* the retained source object [live, age, db, rdb]
+          src,         \* the retained source object [live, age, db, rdb, kind, link, sd, sr]: kind "copy" (promised
+                       \* independent) / "share"; link "rev" / "same": the current object is a reverse / straight
+                       \* view sharing the source's db (sd) and rdb (sr) DICTIONARY objects; "none": no dictionary shared
           al,          \* [db, rdb]: for every set of the current object the source set it IS (or NoCell)
           rv,          \* reverse view remembered by the current object [has, stale, db, rdb]
           ab           \* the object a deprecated alias is bound to [set, cur, db, rdb]
@@ -257,7 +287,9 @@ IHasTag(st, n)   == n \in DOMAIN st.rdb
 \* ---- identity of set objects: which sets of the current object are shared with the retained
 \* source of the last copy()/reverse_copy().  A cell is <<"db", key>> / <<"rdb", key>> of the source.
 NoCell      == <<>>
-NoSrc       == [live |-> FALSE, age |-> 0, db |-> NoDict, rdb |-> NoDict]
+NoSrc       == [live |-> FALSE, age |-> 0, db |-> NoDict, rdb |-> NoDict, kind |-> "copy", link |-> "none", sd |-> FALSE, sr |-> FALSE]
+Unlinked(s) == [s EXCEPT !.link = "none", !.sd = FALSE, !.sr = FALSE]
+FlipLink(l) == IF l = "rev" THEN "same" ELSE IF l = "same" THEN "rev" ELSE "none"
 NoAlias(st) == [db |-> [k \in DOMAIN st.db |-> NoCell], rdb |-> [t \in DOMAIN st.rdb |-> NoCell]]
 \* insert: db[pkg] = tags.copy() is a new set; rdb[tag] of an existing tag is MUTATED (stays the
 \* same object); rdb[tag] of a new tag is a new set
@@ -284,6 +316,26 @@ LRestrictDb(a, st2, share)  == [db  |-> [k \in DOMAIN st2.db |-> IF share THEN a
 LRestrictRdb(a, st2, share) == [db  |-> [k \in DOMAIN st2.db |-> NoCell],
                                 rdb |-> [t \in DOMAIN st2.rdb |-> IF share THEN a.rdb[t] ELSE NoCell]]
 CellOf(s, c) == IF c[1] = "db" THEN s.db[c[2]] ELSE s.rdb[c[2]]
+\* a sharing restriction taken from an object that becomes the retained source itself
+LOwnRestrictDb(st2, share)  == [db  |-> [k \in DOMAIN st2.db |-> IF share THEN <<"db", k>> ELSE NoCell],
+                                rdb |-> [t \in DOMAIN st2.rdb |-> NoCell]]
+LOwnRestrictRdb(st2, share) == [db  |-> [k \in DOMAIN st2.db |-> NoCell],
+                                rdb |-> [t \in DOMAIN st2.rdb |-> IF share THEN <<"rdb", t>> ELSE NoCell]]
+\* ---- views: dictionary objects shared with the retained source s.  Which dictionary of s the
+\* db / rdb dictionary of the current object IS (or "" when it is a private one)
+CurDbIs(s)  == IF s.link = "rev" THEN (IF s.sr THEN "rdb" ELSE "") ELSE IF s.link = "same" THEN (IF s.sd THEN "db" ELSE "") ELSE ""
+CurRdbIs(s) == IF s.link = "rev" THEN (IF s.sd THEN "db" ELSE "") ELSE IF s.link = "same" THEN (IF s.sr THEN "rdb" ELSE "") ELSE ""
+\* every set in a shared dictionary is a set of the source: identities of the sets of st2
+ViewAl(a2, st2, s) ==
+   [db  |-> [k \in DOMAIN st2.db  |-> IF s.live /\ CurDbIs(s)  # "" THEN <<CurDbIs(s), k>>  ELSE a2.db[k]],
+    rdb |-> [t \in DOMAIN st2.rdb |-> IF s.live /\ CurRdbIs(s) # "" THEN <<CurRdbIs(s), t>> ELSE a2.rdb[t]]]
+\* the source after the current object was changed in place to st2: a shared dictionary has ONE value
+Mirror(s, st2) ==
+   IF ~s.live \/ s.link = "none" THEN s
+   ELSE [s EXCEPT !.db  = IF ~s.sd THEN s.db  ELSE IF s.link = "rev" THEN st2.rdb ELSE st2.db,
+                  !.rdb = IF ~s.sr THEN s.rdb ELSE IF s.link = "rev" THEN st2.db  ELSE st2.rdb]
+\* the reference relation the source of a view must show when the current object shows a
+ViewAbs(s, a, old) == IF s.live /\ s.link = "rev" THEN AReverse(a) ELSE IF s.live /\ s.link = "same" THEN a ELSE old
 
 \* the two indexes as pair sets, and the abstraction function
 PairsDb(st)  == UNION {{<<p, t>> : t \in st.db[p]} : p \in DOMAIN st.db}
@@ -312,15 +364,30 @@ Init == /\ P = {} /\ T = {} /\ R = {} /\ db = NoDict /\ rdb = NoDict
 
 \* a call that is not a copy: s = the source after the effects of the call, a2 = the identities of
 \* the sets of the new current object st2; the source is released SrcSteps calls after the copy
-KeepSrc(s, a2, st2) ==
+Release(st2) == src' = NoSrc /\ al' = NoAlias(st2) /\ sabs' = AEmpty
+KeepSrcA(s, a2, st2, sa) ==
    IF s.live /\ s.age < SrcSteps
-   THEN src' = [s EXCEPT !.age = s.age + 1] /\ al' = a2 /\ UNCHANGED sabs
-   ELSE src' = NoSrc /\ al' = NoAlias(st2) /\ sabs' = AEmpty
+   THEN src' = [s EXCEPT !.age = s.age + 1] /\ al' = a2 /\ sabs' = sa
+   ELSE Release(st2)
+KeepSrc(s, a2, st2) == KeepSrcA(s, a2, st2, sabs)
 \* copy()/reverse_copy()/pickle: the object copied (st) becomes the retained source
 Retain(st, a2, st2) ==
    IF SrcSteps > 0
-   THEN src' = [live |-> TRUE, age |-> 0, db |-> st.db, rdb |-> st.rdb] /\ sabs' = Abs /\ al' = a2
-   ELSE src' = NoSrc /\ al' = NoAlias(st2) /\ sabs' = AEmpty
+   THEN src' = [NoSrc EXCEPT !.live = TRUE, !.db = st.db, !.rdb = st.rdb] /\ sabs' = Abs /\ al' = a2
+   ELSE Release(st2)
+\* a sharing derivation st2 of the object st: st becomes the retained source (kind "share");
+\* lnk = "rev" for reverse() -- the dictionaries themselves are handed out, unless the negative
+\* control replaces an empty one -- "none" for the restrictions (set objects shared as a2 says)
+RetainShared(st, lnk, a2, st2) ==
+   IF SrcSteps > 0
+   THEN LET s == [NoSrc EXCEPT !.live = TRUE, !.db = st.db, !.rdb = st.rdb, !.kind = "share", !.link = lnk,
+                               !.sd = lnk # "none" /\ ~(ViewReplacesEmptyIndex /\ DOMAIN st.db = {}),
+                               !.sr = lnk # "none" /\ ~(ViewReplacesEmptyIndex /\ DOMAIN st.rdb = {})]
+        IN src' = s /\ sabs' = Abs /\ al' = ViewAl(a2, st2, s)
+   ELSE Release(st2)
+\* a new object derived from the current one while a source is watched: no dictionary is shared
+\* any more (set objects may be: a2); a source that was viewed stays of kind "share"
+KeepDerived(a2, st2) == KeepSrc(Unlinked(src), a2, st2)
 
 \* ---- object identity for the two negative controls (both variables stay constant when the
 \* controls are off).  Deprecated aliases are used on the current object after every call.
@@ -348,14 +415,21 @@ AliasTarget == IF ab.set /\ ~ab.cur THEN [db |-> ab.db, rdb |-> ab.rdb] ELSE [db
 \* read(lines, tag_filter) / qread(pickle of that collection) -- also over a non-empty object (re-read)
 Read(lines, drop) == /\ SetAbs(ARead(lines, drop))
                      /\ Edge("read", <<>>, drop, lines)
-                     /\ LET st2 == IRead(lines, drop) IN SetImpl(st2) /\ KeepSrc(src, NoAlias(st2), st2)
+                     /\ LET st2 == IRead(lines, drop) IN SetImpl(st2) /\ KeepDerived(NoAlias(st2), st2)    \* new dictionaries are bound
                      /\ Assert(IRead(lines, drop) = IReadClosed(lines, drop), "IReadClosed differs from the transcribed loop")
                      /\ (SameObject("read") \/ (drop = {} /\ SameObject("qread")))
 Insert(p, S)      == /\ p \notin P
                      /\ SetAbs(AInsert(Abs, p, S))
                      /\ Edge("insert", p, S, <<>>)
                      /\ LET st2 == IInsert(Impl, p, S, Dev)
-                        IN SetImpl(st2) /\ KeepSrc(SrcInsert(src, al, Impl, p, S), LInsert(al, Impl, p, S), st2)
+                            \* an in-place mutation reaches a set shared with a source of a partially sharing derivation
+                            hit == src.live /\ src.kind = "share" /\ src.link = "none"
+                                      /\ \E t \in S \cap DOMAIN rdb : al.rdb[t] # NoCell
+                        IN /\ SetImpl(st2)
+                           /\ IF hit THEN Release(st2)                   \* unspecified: the source is not looked at any more
+                              ELSE KeepSrcA(Mirror(SrcInsert(src, al, Impl, p, S), st2),
+                                            ViewAl(LInsert(al, Impl, p, S), st2, src), st2,
+                                            ViewAbs(src, AInsert(Abs, p, S), sabs))
                      /\ SameObject("mutate")
 \* reverse() / reverse_copy().  reverse() is a view on the same two dictionaries; with
 \* ReverseViewCached it is remembered (and remembers its origin), and a stale one is handed back
@@ -363,9 +437,13 @@ Reverse           == /\ SetAbs(AReverse(Abs))
                      /\ Edge("reverse", <<>>, {}, <<>>)
                      /\ \/ IF ReverseViewCached /\ rv.has /\ rv.stale
                            THEN LET st2 == [db |-> rv.db, rdb |-> rv.rdb]
-                                IN /\ SetImpl(st2) /\ KeepSrc(src, NoAlias(st2), st2)
+                                IN /\ SetImpl(st2) /\ KeepDerived(NoAlias(st2), st2)
                                    /\ NewObject([has |-> TRUE, stale |-> TRUE, db |-> db, rdb |-> rdb])
-                           ELSE /\ SetImpl(IReverse(Impl)) /\ KeepSrc(src, LReverse(al), IReverse(Impl))
+                           ELSE /\ SetImpl(IReverse(Impl))
+                                \* a view of a view shares the same dictionaries the other way round; the view of an
+                                \* unwatched object makes that object the retained source
+                                /\ IF src.live THEN KeepSrc([src EXCEPT !.link = FlipLink(src.link)], LReverse(al), IReverse(Impl))
+                                   ELSE RetainShared(Impl, "rev", LReverse(NoAlias(Impl)), IReverse(Impl))
                                 /\ NewObject(IF ReverseViewCached THEN [NoView EXCEPT !.has = TRUE] ELSE NoView)
                         \/ /\ SetImpl(IReverseCopy(Impl))
                            /\ Retain(Impl, LReverseCopy(Impl, ShallowCopy), IReverseCopy(Impl))
@@ -397,13 +475,21 @@ RestrictPackages(S, X) ==
                      /\ \E st2 \in {IChoose(Impl, S), IChoose(Impl, S \cup X), IChooseCopy(Impl, S),
                                     IFilterP(Impl, S), IFilterPT(Impl, S)} :
                            /\ SetImpl(st2)
-                           /\ \E share \in BOOLEAN : KeepSrc(src, LRestrictDb(al, st2, share), st2)
+                           /\ \E share \in BOOLEAN :
+                                 IF src.live THEN KeepDerived(LRestrictDb(al, st2, share), st2)
+                                 ELSE IF ~WatchParts THEN Release(st2)
+                                 ELSE IF share THEN RetainShared(Impl, "none", LOwnRestrictDb(st2, TRUE), st2)
+                                 ELSE Release(st2)      \* the _copy forms: nothing shared (watched by the trace module only)
                      /\ NewObject(NoView)
 \* filter_tags(_copy)(in S)
 FilterTags(S)     == /\ SetAbs(ARestrictT(Abs, S))
                      /\ Edge("filter_t", <<>>, S, <<>>)
                      /\ LET st2 == IFilterT(Impl, S)
-                        IN SetImpl(st2) /\ \E share \in BOOLEAN : KeepSrc(src, LRestrictRdb(al, st2, share), st2)
+                        IN SetImpl(st2) /\ \E share \in BOOLEAN :
+                              IF src.live THEN KeepDerived(LRestrictRdb(al, st2, share), st2)
+                              ELSE IF ~WatchParts THEN Release(st2)
+                              ELSE IF share THEN RetainShared(Impl, "none", LOwnRestrictRdb(st2, TRUE), st2)
+                              ELSE Release(st2)
                      /\ NewObject(NoView)
 \* the reference outcome of a failed read: the exception propagates and the object is one of the
 \* allowed consistent collections; if the implementation leaves anything else the reference
@@ -418,7 +504,7 @@ ReadFails(lines, drop, k) ==
    IN /\ SetAbs(AfterFailure(st2, allowed))
       /\ EdgeF("read_fails", lines, k, allowed)
       /\ SetImpl(st2)
-      /\ KeepSrc(src, IF st2 = Impl THEN al ELSE [db |-> NoAlias(st2).db, rdb |-> al.rdb], st2)
+      /\ (IF st2 = Impl THEN KeepSrc(src, al, st2) ELSE KeepDerived([db |-> NoAlias(st2).db, rdb |-> al.rdb], st2))
       /\ SameObject("mutate")
 QReadFails(lines, stage) ==
    LET new     == IRead(lines, {})
@@ -427,13 +513,27 @@ QReadFails(lines, stage) ==
    IN /\ SetAbs(AfterFailure(st2, allowed))
       /\ EdgeF("qread_fails", lines, stage, allowed)
       /\ SetImpl(st2)
-      /\ KeepSrc(src, IF st2 = Impl THEN al ELSE [db |-> NoAlias(st2).db, rdb |-> al.rdb], st2)
+      /\ (IF st2 = Impl THEN KeepSrc(src, al, st2) ELSE KeepDerived([db |-> NoAlias(st2).db, rdb |-> al.rdb], st2))
       /\ SameObject("mutate")
 FacetCollection   == /\ AFacetDomain(Abs)
                      /\ SetAbs(AFacet(Abs))
                      /\ Edge("facet", <<>>, {}, <<>>)
                      /\ \E order \in (IF Dev THEN SetToSeqs(DOMAIN db) ELSE {SetToSeq(DOMAIN db)}) :
-                           LET st2 == IFacet(Impl, order, Dev) IN SetImpl(st2) /\ KeepSrc(src, NoAlias(st2), st2)
+                           LET st2 == IFacet(Impl, order, Dev) IN SetImpl(st2) /\ KeepDerived(NoAlias(st2), st2)
+                     /\ NewObject(NoView)
+
+\* the history continues on the retained source of a view (the ORIGINAL is used again after its
+\* reverse() view was edited, or the other way round); the former current object becomes the
+\* watched one.  Not a transition of the reference on its own: with link "rev" it is the reference
+\* transition of reverse(), with link "same" a stuttering step (the harness concretizes a reverse
+\* edge of the LTS as "go back to the original")
+Switch            == /\ src.live /\ src.link # "none" /\ src.age < SrcSteps
+                     /\ SetAbs(sabs) /\ SetImpl([db |-> src.db, rdb |-> src.rdb])
+                     /\ LET s == [src EXCEPT !.db = db, !.rdb = rdb, !.age = src.age + 1,
+                                             !.sd = IF src.link = "rev" THEN src.sr ELSE src.sd,
+                                             !.sr = IF src.link = "rev" THEN src.sd ELSE src.sr]
+                            st2 == [db |-> src.db, rdb |-> src.rdb]
+                        IN src' = s /\ sabs' = Abs /\ al' = ViewAl(NoAlias(st2), st2, s)
                      /\ NewObject(NoView)
 
 \* ---- bounded choice of arguments for the closed configurations
@@ -455,7 +555,7 @@ Next == \/ \E K \in SUBSET PK : \E c \in [K -> SUBSET FT] :
               \/ Pristine /\ \E d \in ReadDrops : Read(LinesOf(c), d)
               \/ ~Pristine /\ K = ReReadKeys /\ (\A k \in K : c[k] = {ReReadTag}) /\ Read(LinesOf(c), {})
         \/ \E p \in KeyPool \ P : \E S \in SUBSET ValPool : Insert(p, S)
-        \/ Reverse \/ Copy \/ DumpRead \/ DumpReverseRead
+        \/ Reverse \/ Copy \/ DumpRead \/ DumpReverseRead \/ Switch
         \/ \E S \in SUBSET P : RestrictPackages(S, KeyPool \ P)
         \/ \E S \in SUBSET T : FilterTags(S)
         \/ FacetCollection
